@@ -12,13 +12,13 @@ structure InvR (lw : Nat) (st : St) : Prop where
 theorem invR_init (lw : Nat) (line : List Sec) : InvR lw (initSt line) :=
   ⟨by simp [initSt], by simp [initSt]⟩
 
-theorem invR_step {cfg : Cfg} {sym lw : Nat} (st st' : St) (hi : InvR lw st)
-    (h : StepRel cfg sym lw st st') : InvR lw st' := by
+theorem invR_step {fx : Fixes} {cfg : Cfg} {sym lw : Nat} (st st' : St) (hi : InvR lw st)
+    (h : StepRel fx cfg sym lw st st') : InvR lw st' := by
   obtain ⟨hn, hw⟩ := hi
   cases h with
   | push style gs rest hs hl hfit => exact ⟨hn, hw⟩
   | nl style gs rest hs hl heq hnl => exact ⟨hn, hw⟩
-  | split0 style gs rest hs hl hge hnf hw0 =>
+  | split0 style gs rest hs hl hge hnf hw0 hns =>
     refine ⟨?_, fun _ => lw_ge_two_of_not_limit hl⟩
     intro r hr
     simp only [List.mem_append, List.mem_singleton] at hr
@@ -33,24 +33,27 @@ theorem invR_step {cfg : Cfg} {sym lw : Nat} (st st' : St) (hi : InvR lw st)
     | inl h => exact hn r h
     | inr h => subst h; simp
 
-/-- What is known about a successful run of `wrapFull`. -/
-theorem wrapFull_spec {cfg : Cfg} {line : List Sec} {lw fill : Nat} {hint : Option Nat} {o : Out}
-    (hz : NlZero line) (h : wrapFull cfg line lw fill hint = .ok o) :
+/-- What is known about a successful run of `wrapFullF`. -/
+theorem wrapFull_spec {fx : Fixes} {cfg : Cfg} {line : List Sec} {lw fill : Nat} {hint : Option Nat} {o : Out}
+    (hz : NlZero line) (h : wrapFullF fx cfg line lw fill hint = .ok o) :
     ∃ st stop, InvL cfg lw line st ∧ InvR lw st ∧
-      (cfg.leftSym.w ≤ 1 → InvW cfg (symStyleOf fill hint) lw st) ∧
-      step cfg (symStyleOf fill hint) lw st = .done stop ∧
+      (cfg.leftSym.w ≤ 1 → (fx.forceProgress = true → Fits cfg lw line) →
+        InvW fx cfg (symStyleOf fill hint) lw st) ∧
+      step fx cfg (symStyleOf fill hint) lw st = .done stop ∧
       FinishShape cfg fill (symStyleOf fill hint) lw st stop o := by
-  unfold wrapFull at h
+  unfold wrapFullF at h
   split at h
   · cases h
   · rename_i st stop hloop
-    have hinv := loop_inv (cfg := cfg) (sym := symStyleOf fill hint) (lw := lw)
+    have hinv := loop_inv (fx := fx) (cfg := cfg) (sym := symStyleOf fill hint) (lw := lw)
       (fun st => InvL cfg lw line st ∧ InvR lw st ∧
-        (cfg.leftSym.w ≤ 1 → InvW cfg (symStyleOf fill hint) lw st))
+        (cfg.leftSym.w ≤ 1 → (fx.forceProgress = true → Fits cfg lw line) →
+          InvW fx cfg (symStyleOf fill hint) lw st))
       (by
         intro s s' ⟨a, b, c⟩ hs
-        exact ⟨invL_step s s' a hs, invR_step s s' b hs, fun hw => invW_step hw s s' a (c hw) hs⟩)
-      _ _ _ _ ⟨invL_init cfg lw line hz, invR_init lw line, fun _ => invW_init cfg _ lw line⟩ hloop
+        exact ⟨invL_step s s' a hs, invR_step s s' b hs,
+          fun hw hf => invW_step hw s s' a (c hw hf) hs⟩)
+      _ _ _ _ ⟨invL_init cfg lw line hz, invR_init lw line, fun _ hf => invW_init fx cfg _ lw line hf⟩ hloop
     obtain ⟨⟨a, b, c⟩, hd⟩ := hinv
     exact ⟨st, stop, a, b, c, hd, finish_shape a b.nonempty hd h⟩
 
@@ -82,15 +85,32 @@ theorem finish_no_panic {cfg : Cfg} {fill sym lw : Nat} {st : St} {stop : Stop}
   rw [hx]
   exact ⟨_, rfl⟩
 
-theorem wrapFull_result (cfg : Cfg) (line : List Sec) (lw fill : Nat) (hint : Option Nat) :
-    wrapFull cfg line lw fill hint = .error .hang ∨ ∃ o, wrapFull cfg line lw fill hint = .ok o := by
-  unfold wrapFull
+theorem wrapFull_result (fx : Fixes) (cfg : Cfg) (line : List Sec) (lw fill : Nat) (hint : Option Nat) :
+    wrapFullF fx cfg line lw fill hint = .error .hang ∨ ∃ o, wrapFullF fx cfg line lw fill hint = .ok o := by
+  unfold wrapFullF
   split
   · left; rfl
   · rename_i st stop hloop
     right
-    have hinv := loop_inv (cfg := cfg) (sym := symStyleOf fill hint) (lw := lw) (fun st => InvR lw st)
+    have hinv := loop_inv (fx := fx) (cfg := cfg) (sym := symStyleOf fill hint) (lw := lw) (fun st => InvR lw st)
       (fun s s' a hs => invR_step s s' a hs) _ _ _ _ (invR_init lw line) hloop
     exact finish_no_panic hinv.1
+
+/-- Termination of the loop gives a result of `wrapFullF`. -/
+theorem wrapFull_ok_of_loop {fx : Fixes} {cfg : Cfg} {line : List Sec} {lw fill : Nat} {hint : Option Nat}
+    (h : ∃ r, loop fx cfg (symStyleOf fill hint) lw (fuelFor cfg lw line) (initSt line) = some r) :
+    ∃ o, wrapFullF fx cfg line lw fill hint = .ok o := by
+  obtain ⟨r, hr⟩ := h
+  cases wrapFull_result fx cfg line lw fill hint with
+  | inl hh =>
+    unfold wrapFullF at hh
+    rw [hr] at hh
+    obtain ⟨o, ho⟩ := finish_no_panic (cfg := cfg) (fill := fill) (sym := symStyleOf fill hint) (lw := lw)
+      (st := r.1) (stop := r.2)
+      ((loop_inv (fx := fx) (cfg := cfg) (sym := symStyleOf fill hint) (lw := lw) (fun st => InvR lw st)
+        (fun s s' a hs => invR_step s s' a hs) _ _ r.1 r.2 (invR_init lw line) hr).1)
+    simp only [ho] at hh
+    cases hh
+  | inr ho => exact ho
 
 end Wrap
